@@ -250,8 +250,15 @@ int radmsg2buf(struct radmsg *msg, uint8_t *secret, int secret_len, uint8_t **bu
     for (node = list_first(msg->attrs); node; node = list_next(node)) {
         tlv = (struct tlv *)node->data;
         p = tlv2buf(p, tlv);
-        if (tlv->t == RAD_Attr_Message_Authenticator && secret)
+        if (tlv->t == RAD_Attr_Message_Authenticator && secret) {
+            if (tlv->l != 16) {
+                debug(DBG_WARN, "radmsg2buf: Message-Authenticator attribute of %d octets, not sending", tlv->l);
+                free(*buf);
+                *buf = NULL;
+                return -1;
+            }
             msgauth = ATTRVAL(p);
+        }
         p += tlv->l + 2;
     }
     if (msgauth && !_createmessageauth(*buf, size, msgauth, secret, secret_len)) {
